@@ -63,6 +63,19 @@ var c09EncCfgs = []sonic.API{
 	sonic.Config{SortMapKeys: true}.Froze(),
 	sonic.Config{SortMapKeys: true, NoNullSliceOrMap: true}.Froze(),
 	sonic.Config{SortMapKeys: true, EscapeHTML: true, CompactMarshaler: true, NoQuoteTextMarshaler: true}.Froze(),
+	sonic.Config{}.Froze(), // c09EncUnsorted
+}
+
+const c09EncUnsorted = 4
+
+type c09BothVal struct {
+	V CbBoth
+	L []CbBoth
+}
+
+type c09BothKey struct {
+	M map[CbBoth]int
+	T map[CbText]CbBoth
 }
 var c09DecCfgs = []sonic.API{
 	sonic.ConfigStd,
@@ -132,7 +145,15 @@ func c09Do(types []reflect.Type, o *c09Op) (res c08Res) {
 	switch o.Kind {
 	case 0:
 		b, err := c09EncCfgs[o.Cfg].Marshal(o.arg())
-		return c08Res{Out: string(b), Err: errStr(err)}
+		out := string(b)
+		if o.Cfg == c09EncUnsorted && err == nil {
+			// map iteration order is random without SortMapKeys: compare modulo the order of
+			// members (the unsorted encoding of map keys is a code path of its own)
+			if s := sortedCanon(out); s != "<invalid>" {
+				out = "sorted:" + s
+			}
+		}
+		return c08Res{Out: out, Err: errStr(err)}
 	case 1:
 		p := reflect.New(types[o.T])
 		err := c09DecCfgs[o.Cfg].Unmarshal([]byte(o.Text), p.Interface())
@@ -269,6 +290,22 @@ func runC09(c *Ctx) Result {
 		}
 		ops[i] = o
 	}
+	// scenario (a quarter of the runs): one callback type reached first in one POSITION and then
+	// in another - as a value (its JSON marshaler applies) and as a map key (its text marshaler
+	// applies, on the unsorted path) - by two different types; the second call is the one the
+	// pristine process repeats
+	scenario := -1
+	if g.d(4) == 0 {
+		first, second := len(types), len(types)+1
+		types = append(types, reflect.TypeOf(c09BothVal{}), reflect.TypeOf(c09BothKey{}))
+		if g.d(2) == 0 {
+			first, second = second, first
+		}
+		ops[0] = c09Op{Kind: 0, T: first, V: z.Value(types[first], 0), Ptr: []bool{false}, Cfg: c09EncUnsorted}
+		ops[1] = c09Op{Kind: 0, T: second, V: z.Value(types[second], 0), Ptr: []bool{g.d(2) == 0}, Cfg: c09EncUnsorted}
+		scenario = 1
+		c.inc("scenario_value_then_key_position")
+	}
 	var opS, typeS []string
 	for _, o := range ops {
 		opS = append(opS, o.String())
@@ -398,6 +435,9 @@ func runC09(c *Ctx) Result {
 		i := cands[t.Draw(simrt.Knobs, len(cands))]
 		if len(sharp) > 0 && t.Draw(simrt.Knobs, 2) == 0 {
 			i = sharp[t.Draw(simrt.Knobs, len(sharp))]
+		}
+		if scenario >= 0 {
+			i = scenario
 		}
 		ans, err := pristine(c, "C09", i, zooBase)
 		if err != nil {
